@@ -53,7 +53,7 @@ def nodupS : List String → Bool
 def docOkB (langs : List String) (r : RepoMeta) (d : Doc) : Bool :=
   nodupS r.branches && decide (r.branches.length ≤ 64) && decide (d.mask < 2 ^ r.branches.length) &&
   nodupS r.subPaths && decide (d.sub < r.subPaths.length) && secsOk (contentLen d.content) d.secs &&
-  (langs.getD d.lang "" != "" || d.redetect == "") && d.syms.all (·.isSome)
+  (langs.getD d.lang "" != "" || d.redetect == "") && d.syms.all (·.isSome) && d.syms.length == d.secs.length
 
 /-- input shard: every document points to a repository, documents of live repositories are `docOkB`, documents are
     grouped by repository -/
